@@ -86,6 +86,12 @@ def run(ctx):
             confirmed, snippet, text = False, None, "no concrete input"
         ctx.violation(name, {"function": "writer.update_file_custom_metadata", "model": model, "replay_result": text,
                              "snippet": snippet}, confirmed, what=text)
+    from ._merge import p_merge
+    from vc.symexec import Unsupported as _Unsup
+    try:
+        p_merge(ctx)
+    except _Unsup as ex:
+        ctx.obligation("update_custom_metadata.out_of_reach", "util.update_custom_metadata", "unknown", "engine", 0.0, detail=str(ex), sample=True)
     if not os.environ.get("VERIF_SKIP_BOUNDED"):
         try:
             from runtime import c16_update_history
